@@ -270,4 +270,282 @@ theorem C15_roundtrip_srtla_ack (acks : List Nat) (ha : ∀ a ∈ acks, a < 4294
     simp only [createAck] at this ⊢
     simpa using this
 
+
+/-! ## Round 2 (a): literal length / type pins -/
+
+/-- The regenerated length and type constants have the values the property names.  Editing a
+`*_LEN` / type constant in `constants.rs` (or a bare guard literal in `parsers.rs`/`types.rs`) makes
+this proof fail. -/
+theorem C15_length_pins :
+    Proto.SRTLA_TYPE_REG1_LEN = 258 ∧ Proto.SRTLA_TYPE_REG2_LEN = 258 ∧ Proto.SRTLA_TYPE_REG3_LEN = 2 ∧
+    Proto.SRTLA_ID_LEN = 256 ∧ Proto.SRTLA_KEEPALIVE_EXT_LEN = 38 ∧
+    Proto.SRTLA_TYPE_REG1 = 0x9200 ∧ Proto.SRTLA_TYPE_REG2 = 0x9201 ∧ Proto.SRTLA_TYPE_REG3 = 0x9202 ∧
+    Proto.SRTLA_TYPE_KEEPALIVE = 0x9000 ∧ Proto.SRTLA_TYPE_ACK = 0x9100 ∧
+    Proto.SRT_TYPE_ACK = 0x8002 ∧ Proto.SRT_TYPE_NAK = 0x8003 ∧
+    Proto.SRTLA_KEEPALIVE_MAGIC = 0xC01F ∧ Proto.SRTLA_KEEPALIVE_EXT_VERSION = 1 ∧
+    Lit.PKT_TYPE_MIN_LEN = 2 ∧ Lit.SRT_SEQ_MIN_LEN = 4 ∧ Lit.RETRANSMIT_MIN_LEN = 8 ∧
+    Lit.KEEPALIVE_TS_MIN_LEN = 10 ∧ Lit.SRT_ACK_MIN_LEN = 20 ∧ Lit.SRT_ACK_OFFSET = 16 ∧
+    Lit.SRT_NAK_MIN_LEN = 8 ∧ Lit.SRT_NAK_FIRST_OFFSET = 4 ∧ Lit.SRT_NAK_MAX_EXPAND = 1000 ∧
+    Lit.SRTLA_ACK_MIN_LEN = 8 ∧ Lit.SRTLA_ACK_FIRST_OFFSET = 4 := by
+  decide
+
+/-- REG3 is exactly 2 bytes: the predicate accepts a byte string iff it has length 2 and type 0x9202. -/
+theorem C15_reg3_is_2_bytes (b : Bytes) :
+    isSrtlaReg3 b = .ok true ↔ b.length = 2 ∧ getPacketTypeS b = some 0x9202 := by
+  simp only [isSrtlaReg3, getPacketType_eq, Proto.SRTLA_TYPE_REG3_LEN_eq, Proto.SRTLA_TYPE_REG3_eq]
+  by_cases h : b.length = 2 <;> simp [h]
+
+/-- … i.e. iff it is the two bytes `92 02`. -/
+theorem C15_reg3_exact (b : Bytes) : isSrtlaReg3 b = .ok true ↔ b = [0x92, 0x02] := by
+  rw [C15_reg3_is_2_bytes]
+  constructor
+  · rintro ⟨hl, ht⟩
+    match b, hl with
+    | [a, c], _ =>
+      simp only [getPacketTypeS, be16, Option.some.injEq] at ht
+      have ha := a.toNat_lt; have hc := c.toNat_lt
+      have h1 : a.toNat = 146 := by omega
+      have h2 : c.toNat = 2 := by omega
+      have ea : a = 146 := UInt8.toNat_inj.1 h1
+      have ec : c = 2 := UInt8.toNat_inj.1 h2
+      rw [ea, ec]
+  · rintro rfl; decide
+
+/-- REG1 is exactly 258 bytes of type 0x9200. -/
+theorem C15_reg1_is_258_bytes (b : Bytes) :
+    isSrtlaReg1 b = .ok true ↔ b.length = 258 ∧ getPacketTypeS b = some 0x9200 := by
+  simp only [isSrtlaReg1, getPacketType_eq, Proto.SRTLA_TYPE_REG1_LEN_eq, Proto.SRTLA_TYPE_REG1_eq]
+  by_cases h : b.length = 258 <;> simp [h]
+
+/-- REG2 is exactly 258 bytes of type 0x9201. -/
+theorem C15_reg2_is_258_bytes (b : Bytes) :
+    isSrtlaReg2 b = .ok true ↔ b.length = 258 ∧ getPacketTypeS b = some 0x9201 := by
+  simp only [isSrtlaReg2, getPacketType_eq, Proto.SRTLA_TYPE_REG2_LEN_eq, Proto.SRTLA_TYPE_REG2_eq]
+  by_cases h : b.length = 258 <;> simp [h]
+
+/-- The keepalive / SRT ACK predicates look at the type only (any length ≥ 2). -/
+theorem C15_type_only_predicates (b : Bytes) :
+    (isSrtlaKeepalive b = .ok true ↔ getPacketTypeS b = some 0x9000) ∧
+    (isSrtAck b = .ok true ↔ getPacketTypeS b = some 0x8002) := by
+  simp [isSrtlaKeepalive, isSrtAck, getPacketType_eq]
+
+/-- The type is the big-endian 16-bit number in the first two bytes; fewer than 2 bytes have none. -/
+theorem C15_packet_type (b : Bytes) :
+    getPacketType b = .ok (getPacketTypeS b) ∧
+    (b.length < 2 → getPacketTypeS b = none) ∧
+    (∀ h : 2 ≤ b.length, getPacketTypeS b = some ((b[0]'(by omega)).toNat * 256 + (b[1]'(by omega)).toNat)) := by
+  refine ⟨getPacketType_eq b, ?_, ?_⟩
+  · intro h
+    match b, h with
+    | [], _ => rfl
+    | [_], _ => rfl
+  · intro h
+    match b, h with
+    | a :: c :: rest, _ => simp [getPacketTypeS, be16]
+
+/-- A keepalive timestamp is only ever extracted from a frame of at least 10 bytes with type 0x9000,
+connection info only from one of at least 38 bytes with type 0x9000, magic 0xC01F at bytes 10..12 and
+version 1 at bytes 12..14. -/
+theorem C15_keepalive_min_len (b : Bytes) :
+    (∀ ts, extractKeepaliveTimestamp b = .ok (some ts) → 10 ≤ b.length ∧ getPacketTypeS b = some 0x9000) ∧
+    (∀ ci, extractKeepaliveConnInfo b = .ok (some ci) → 38 ≤ b.length ∧ getPacketTypeS b = some 0x9000 ∧
+      rd16 b 10 = .ok 0xC01F ∧ rd16 b 12 = .ok 1) := by
+  have c1 := Proto.SRTLA_TYPE_KEEPALIVE_eq
+  have c2 := Proto.SRTLA_KEEPALIVE_MAGIC_eq
+  have c3 := Proto.SRTLA_KEEPALIVE_EXT_VERSION_eq
+  constructor
+  · intro ts h
+    unfold extractKeepaliveTimestamp at h
+    by_cases hl : b.length < Lit.KEEPALIVE_TS_MIN_LEN
+    · rw [if_pos hl] at h; cases h
+    · rw [if_neg hl] at h
+      simp only [Lit.KEEPALIVE_TS_MIN_LEN_eq, Nat.not_lt] at hl
+      simp only [getPacketType_eq, Chk.bind_ok] at h
+      cases ht : getPacketTypeS b with
+      | none => rw [ht] at h; cases h
+      | some t =>
+        rw [ht] at h
+        by_cases hne : t = 36864
+        · exact ⟨hl, by rw [hne]⟩
+        · simp [hne] at h
+  · intro ci h
+    unfold extractKeepaliveConnInfo at h
+    by_cases hl : b.length < Proto.SRTLA_KEEPALIVE_EXT_LEN
+    · rw [if_pos hl] at h; cases h
+    · rw [if_neg hl] at h
+      simp only [Proto.SRTLA_KEEPALIVE_EXT_LEN_eq, Nat.not_lt] at hl
+      simp only [getPacketType_eq, Chk.bind_ok] at h
+      cases ht : getPacketTypeS b with
+      | none => rw [ht] at h; cases h
+      | some t =>
+        rw [ht] at h
+        by_cases hne : t = 36864
+        · obtain ⟨m, hm⟩ : ∃ m, rd16 b 10 = .ok m := ⟨_, rd16_ok b 10 (by omega)⟩
+          obtain ⟨v, hv⟩ : ∃ v, rd16 b 12 = .ok v := ⟨_, rd16_ok b 12 (by omega)⟩
+          simp only [c1, hne, bne_self_eq_false, Bool.false_eq_true, if_false, hm, hv, Chk.bind_ok] at h
+          by_cases hmg : m = 49183
+          · by_cases hvs : v = 1
+            · exact ⟨hl, by rw [hne], by rw [hm, hmg], by rw [hv, hvs]⟩
+            · simp [hmg, hvs] at h
+          · simp [hmg] at h
+        · simp [hne] at h
+
+example : isSrtlaReg3 [0x92, 0x02] = .ok true ∧ isSrtlaReg3 [0x92, 0x02, 0] = .ok false ∧
+    isSrtlaReg3 [0x92] = .ok false ∧ isSrtlaReg3 [0x92, 0x01] = .ok false := by decide
+
+/-! ## Round 2 (b): NAK decode CONTENT -/
+
+/-- The word view used by the two list decoders: `wordsOf p` has one entry per complete 4 bytes of
+`p`, and entry `k` is the big-endian word at bytes `4k..4k+4` (a trailing 1–3 byte fragment is ignored). -/
+theorem C15_words_spec (p : Bytes) :
+    (wordsOf p).length = p.length / 4 ∧
+    ∀ k (h : 4 * k + 3 < p.length),
+      (wordsOf p)[k]? = some (be32 (p[4 * k]'(by omega)) (p[4 * k + 1]'(by omega))
+        (p[4 * k + 2]'(by omega)) (p[4 * k + 3]'h)) := by
+  constructor
+  · have := wordsOf_drop_length p 0; simpa using this
+  · intro k h
+    have := wordsOf_drop_getElem? p 0 k (by omega)
+    simpa using this
+
+/-- The NAK content specification, clause by clause (these four equations DEFINE `nakWords`):
+end of payload; a word with a clear top bit is one lost sequence number; a word with the top bit set
+opens the range `w & 0x7fffffff ..= next word`, expanded in increasing order and cut off so that the
+output never grows beyond 1000 entries by range expansion; a range marker without a following complete
+word (truncated range) is dropped. -/
+theorem C15_nak_spec_clauses (w e : Nat) (ws out : List Nat) :
+    nakWords [] out = out ∧
+    (w < 0x80000000 → nakWords (w :: ws) out = nakWords ws (out ++ [w])) ∧
+    (0x80000000 ≤ w → nakWords (w :: e :: ws) out =
+      nakWords ws (out ++ (List.range' (w &&& 0x7fffffff) (e + 1 - (w &&& 0x7fffffff))).take (1000 - out.length))) ∧
+    (0x80000000 ≤ w → nakWords [w] out = out) :=
+  ⟨by simp [nakWords], nakWords_single w ws out, nakWords_range w e ws out, nakWords_truncated w out⟩
+
+/-- `List.range' lo (hi + 1 - lo)` is the inclusive range `lo ..= hi` (empty when `hi < lo`). -/
+theorem C15_nak_range_members (lo hi x : Nat) :
+    x ∈ List.range' lo (hi + 1 - lo) ↔ lo ≤ x ∧ x ≤ hi := by
+  rw [List.mem_range'_1]; omega
+
+/-- NAK decode content, for EVERY byte string: a string shorter than 8 bytes or not of type 0x8003
+decodes to nothing; otherwise the result is the specification `nakWords` applied to the big-endian
+words of the payload from byte 4 on. -/
+theorem C15_nak_decode_spec (b : Bytes) :
+    parseSrtNak b = .ok (if 8 ≤ b.length ∧ getPacketTypeS b = some 0x8003
+      then nakWords (wordsOf (b.drop 4)) [] else []) := by
+  unfold parseSrtNak
+  have c1 := Lit.SRT_NAK_MIN_LEN_eq
+  have c2 := Proto.SRT_TYPE_NAK_eq
+  have c3 := Lit.SRT_NAK_FIRST_OFFSET_eq
+  by_cases hl : b.length < Lit.SRT_NAK_MIN_LEN
+  · have h8 : ¬ 8 ≤ b.length := by omega
+    simp [h8]
+  · have h8 : 8 ≤ b.length := by omega
+    rw [if_neg hl]
+    simp only [getPacketType_eq, Chk.bind_ok, c2, c3]
+    rw [nakLoop_spec b b.length 4 [] (by omega)]
+    by_cases ht : getPacketTypeS b = some 0x8003 <;> simp [ht, h8]
+
+/-- A single (non-range) entry decodes to itself, a full range to its members in order, a truncated
+range to nothing — on concrete frames (type 0x8003, two padding bytes, payload). -/
+example :
+    parseSrtNak [0x80, 0x03, 0, 0, 0, 0, 0, 5] = .ok [5] ∧
+    parseSrtNak [0x80, 0x03, 0, 0, 0x80, 0, 0, 10, 0, 0, 0, 12] = .ok [10, 11, 12] ∧
+    parseSrtNak [0x80, 0x03, 0, 0, 0, 0, 0, 5, 0x80, 0, 0, 10, 0, 0, 0, 12, 0, 0, 0, 7, 0x80, 0, 0, 1, 9, 9] =
+      .ok [5, 10, 11, 12, 7] ∧
+    parseSrtNak [0x80, 0x03, 0, 0, 0x80, 0, 0, 10, 0, 0, 0, 9] = .ok [] ∧
+    parseSrtNak [0x80, 0x02, 0, 0, 0, 0, 0, 5] = .ok [] := by
+  simp only [C15_nak_decode_spec]
+  decide
+
+/-- The 1000 bound is on range expansion: a range of 2^31 numbers yields exactly 1000 entries, and
+single entries after it are still appended (the `+ one per 4 payload bytes` of the bound). -/
+example :
+    (nakWords [0x80000000, 0x7fffffff, 77] []).length = 1001 ∧
+    (nakWords [0x80000000, 0x7fffffff, 77] []).getLast? = some 77 := by
+  rw [nakWords_range _ _ _ _ (by decide), nakWords_single _ _ _ (by decide)]
+  simp [nakWords, nakRange]
+
+/-! ## Round 2 (c): SRTLA ACK decode side, arbitrary frame -/
+
+/-- SRTLA ACK decode, for EVERY byte string: shorter than 8 bytes or not of type 0x9100 ⇒ nothing;
+otherwise exactly the big-endian words from byte 4 on. -/
+theorem C15_srtla_ack_decode_spec (b : Bytes) :
+    parseSrtlaAck b = .ok (if 8 ≤ b.length ∧ getPacketTypeS b = some 0x9100
+      then wordsOf (b.drop 4) else []) := by
+  unfold parseSrtlaAck
+  have c1 := Lit.SRTLA_ACK_MIN_LEN_eq
+  have c2 := Proto.SRTLA_TYPE_ACK_eq
+  have c3 := Lit.SRTLA_ACK_FIRST_OFFSET_eq
+  by_cases hl : b.length < Lit.SRTLA_ACK_MIN_LEN
+  · have h8 : ¬ 8 ≤ b.length := by omega
+    simp [h8]
+  · have h8 : 8 ≤ b.length := by omega
+    rw [if_neg hl]
+    simp only [getPacketType_eq, Chk.bind_ok, c2, c3]
+    rw [ackLoop_spec b b.length 4 [] (by omega)]
+    by_cases ht : getPacketTypeS b = some 0x9100 <;> simp [ht, h8]
+
+/-- … so for an ARBITRARY frame of type 0x9100 and at least 8 bytes the decoder returns
+`(len − 4) / 4` entries and entry `i` is the big-endian 32-bit word at byte offset `4 + 4·i`. -/
+theorem C15_srtla_ack_entries (b : Bytes) (h8 : 8 ≤ b.length) (ht : getPacketTypeS b = some 0x9100) :
+    ∃ l, parseSrtlaAck b = .ok l ∧ l.length = (b.length - 4) / 4 ∧
+      ∀ i (h : 4 + 4 * i + 3 < b.length),
+        l[i]? = some (be32 (b[4 + 4 * i]'(by omega)) (b[4 + 4 * i + 1]'(by omega))
+          (b[4 + 4 * i + 2]'(by omega)) (b[4 + 4 * i + 3]'h)) := by
+  refine ⟨wordsOf (b.drop 4), ?_, wordsOf_drop_length b 4, fun i h => wordsOf_drop_getElem? b 4 i h⟩
+  rw [C15_srtla_ack_decode_spec, if_pos ⟨h8, ht⟩]
+
+example : parseSrtlaAck [0x91, 0x00, 7, 7, 0, 0, 1, 0, 0xff, 0xff, 0xff, 0xff, 1, 2, 3] =
+    .ok [256, 4294967295] := by
+  simp only [C15_srtla_ack_decode_spec]; decide
+
+/-! ## Round 2 (d): predicate round trips -/
+
+/-- Every frame the builders make is recognised by its own predicate and by no other one. -/
+theorem C15_roundtrip_predicates (id : Bytes) (h : id.length = 256) (now : Nat) (info : ConnInfo) :
+    isSrtlaReg1 (createReg1 id) = .ok true ∧ isSrtlaReg2 (createReg2 id) = .ok true ∧
+    isSrtlaReg2 (createReg1 id) = .ok false ∧ isSrtlaReg3 (createReg1 id) = .ok false ∧
+    isSrtlaReg1 (createReg2 id) = .ok false ∧ isSrtlaReg3 (createReg2 id) = .ok false ∧
+    isSrtlaKeepalive (createKeepalive now) = .ok true ∧
+    isSrtlaKeepalive (createKeepaliveExt info now) = .ok true ∧
+    isSrtlaKeepalive (createReg1 id) = .ok false ∧ isSrtlaKeepalive (createReg2 id) = .ok false ∧
+    isSrtAck (createKeepalive now) = .ok false ∧ isSrtAck (createReg1 id) = .ok false := by
+  have l1 : (createReg1 id).length = 258 := by simp [createReg1, h]
+  have l2 : (createReg2 id).length = 258 := by simp [createReg2, h]
+  have t1 : getPacketTypeS (createReg1 id) = some 37376 := by simp [createReg1, toBE16, getPacketTypeS, be16]
+  have t2 : getPacketTypeS (createReg2 id) = some 37377 := by simp [createReg2, toBE16, getPacketTypeS, be16]
+  have t3 : getPacketTypeS (createKeepalive now) = some 36864 := by
+    simp [createKeepalive, toBE16, getPacketTypeS, be16]
+  have t4 : getPacketTypeS (createKeepaliveExt info now) = some 36864 := by
+    simp [createKeepaliveExt, toBE16, getPacketTypeS, be16]
+  simp [isSrtlaReg1, isSrtlaReg2, isSrtlaReg3, isSrtlaKeepalive, isSrtAck, getPacketType_eq,
+    l1, l2, t1, t2, t3, t4]
+
+example : isSrtlaReg1 (createReg1 (List.replicate 256 7)) = .ok true :=
+  (C15_roundtrip_predicates _ (List.length_replicate ..) 0 ⟨0, 0, 0, 0, 0, 0⟩).1
+
+/-! ## Round 2 (e): fuel sufficiency -/
+
+/-- No loop of the model is ever stopped by its fuel: with ANY fuel of at least `b.length` (the model
+passes exactly `b.length`) the two fuelled byte loops return the fuel-free specification, and the range
+loop with its fuel 1000 (or more) returns the fuel-free `take`/`range'` specification for every start
+below 2^31 (the masked range start) — so `seq.wrapping_add(1)` never wraps either. -/
+theorem C15_fuel_sufficient (b : Bytes) (f : Nat) (hf : b.length ≤ f) :
+    nakLoop b f 4 [] = .ok (nakWords (wordsOf (b.drop 4)) []) ∧
+    nakLoop b f 4 [] = nakLoop b b.length 4 [] ∧
+    ackLoop b f 4 [] = .ok (wordsOf (b.drop 4)) ∧
+    ackLoop b f 4 [] = ackLoop b b.length 4 [] ∧
+    ∀ g seq e out, 1000 ≤ g → seq < 2147483648 → g ≤ 2147483648 →
+      expandLoop g seq e out = out ++ (List.range' seq (e + 1 - seq)).take (1000 - out.length) ∧
+      expandLoop g seq e out = expandLoop 1000 seq e out := by
+  have n1 := nakLoop_spec b f 4 [] (by omega)
+  have n2 := nakLoop_spec b b.length 4 [] (by omega)
+  have a1 := ackLoop_spec b f 4 [] (by omega)
+  have a2 := ackLoop_spec b b.length 4 [] (by omega)
+  refine ⟨n1, n1.trans n2.symm, by simpa using a1, a1.trans a2.symm, ?_⟩
+  intro g seq e out hg hs hg2
+  have e1 := expandLoop_spec g seq e out (by omega) (by omega)
+  have e2 := expandLoop_spec 1000 seq e out (by omega) (by omega)
+  exact ⟨e1, e1.trans e2.symm⟩
+
 end Srtla.Props.C15
